@@ -500,6 +500,14 @@ func (p *Program) writersObligations(prop string) []*Oblig {
 		o := &Oblig{Name: name, Kind: "writers", Status: "unsat", Solver: "ssa-scan", Props: []string{prop}, Pos: ws.Line}
 		found := false
 		var bad []string
+		type wstore struct {
+			fn  *ssa.Function
+			key string
+			st  *ssa.Store
+		}
+		var wholeStores []wstore
+		var fieldType, fieldTypeOf types.Type
+		_ = fieldType
 		var fns []*ssa.Function
 		for _, fn := range p.funcs {
 			fns = append(fns, fn)
@@ -547,10 +555,23 @@ func (p *Program) writersObligations(prop string) []*Oblig {
 				for _, in := range b.Instrs {
 					if v, ok := in.(ssa.Value); ok && isField(v) {
 						found = true
+						if pt, ok := v.Type().Underlying().(*types.Pointer); ok {
+							fieldTypeOf = pt.Elem()
+						}
 					}
 					viol := ""
 					switch x := in.(type) {
 					case *ssa.Store:
+						if ws.Whole {
+							// the field is replaced as a whole: directly, or through any pointer to
+							// a value of the field's (named struct) type
+							if isField(x.Addr) {
+								viol = "replaces"
+								fieldType = x.Val.Type()
+							}
+							wholeStores = append(wholeStores, wstore{fn, key, x})
+							break
+						}
 						if derived(x.Addr, 0) {
 							viol = "writes"
 						} else if derived(x.Val, 0) {
@@ -558,6 +579,9 @@ func (p *Program) writersObligations(prop string) []*Oblig {
 						}
 					case *ssa.UnOp, *ssa.FieldAddr, *ssa.IndexAddr, *ssa.DebugRef:
 					default:
+						if ws.Whole {
+							break
+						}
 						for _, op := range in.Operands(nil) {
 							if *op != nil && derived(*op, 0) {
 								viol = "lets escape the address of"
@@ -566,6 +590,18 @@ func (p *Program) writersObligations(prop string) []*Oblig {
 					}
 					if viol != "" && !allowed[key] && !(fn.Name() == "init" || strings.HasPrefix(fn.Name(), "init#")) {
 						bad = append(bad, fmt.Sprintf("%s %s %s.%s at %s", fullKey(fn), viol, ws.Type, ws.Field, p.fset.Position(in.Pos())))
+					}
+				}
+			}
+		}
+		if ws.Whole && fieldTypeOf != nil {
+			for _, w := range wholeStores {
+				if isField(w.st.Addr) {
+					continue
+				}
+				if pt, ok := w.st.Addr.Type().Underlying().(*types.Pointer); ok && types.Identical(pt.Elem(), fieldTypeOf) {
+					if _, isStruct := fieldTypeOf.Underlying().(*types.Struct); isStruct && !allowed[w.key] && !(w.fn.Name() == "init" || strings.HasPrefix(w.fn.Name(), "init#")) {
+						bad = append(bad, fmt.Sprintf("%s replaces a whole %s through a pointer at %s", fullKey(w.fn), fieldTypeOf, p.fset.Position(w.st.Pos())))
 					}
 				}
 			}
